@@ -47,6 +47,7 @@ type tracker struct {
 	early       map[uint16]bool // commit slot filled while no header was available
 	earlyPre    map[uint16]bool // pre-commit slot filled while no pre-block was available
 	preSent     bool
+	blockNil    bool // NewBlockFromContext returned nil at this height: stored commits could not be verified then
 	preOKs      int
 	blockOKs    int
 	wanted      map[H]bool // hashes of the last RequestTx
@@ -80,6 +81,7 @@ func (t *tracker) roll(h uint32) {
 	t.verifiedOK = map[H]bool{}
 	t.early, t.earlyPre = map[uint16]bool{}, map[uint16]bool{}
 	t.preSent = false
+	t.blockNil = false
 	t.preOKs, t.blockOKs = 0, 0
 	t.wanted, t.wantedSet, t.answered = nil, false, false
 }
@@ -153,6 +155,8 @@ func (m *monitor) event(n *node, kind string) {
 	h := n.d.BlockIndex
 	t.roll(h)
 	switch kind {
+	case "NEWBLOCKNIL":
+		t.blockNil = true
 	case "NEWPREBLOCK", "SETDATA", "VPREBLOCK":
 		m.tick("C07")
 		if !amevOn(n, h) {
@@ -493,6 +497,9 @@ func (m *monitor) processBlock(n *node, b *Block, fail bool) {
 					sig = "early-commit-unverified/amev/no-own-precommit"
 					if d.MyIndex >= 0 && d.MyIndex < len(d.PreCommitPayloads) && d.PreCommitPayloads[d.MyIndex] != nil {
 						sig = "early-commit-unverified/amev/own-precommit-sent"
+						if t.blockNil { // the application's NewBlockFromContext returned nil when the stored commits were to be verified (D2n)
+							sig = "early-commit-unverified/amev/block-unavailable-at-verification"
+						}
 					}
 				}
 			}
@@ -724,7 +731,13 @@ func (m *monitor) after(n *node, desc string) {
 				m.tick("C12")
 				t.wantedSet = false
 				if !t.answered {
-					m.nhit(n, "C12", "no-answer", fmt.Sprintf("node %d got every requested transaction of the proposal of (%d,%d) and neither responded nor asked for a view change", n.id, t.heightBefore, t.wantedView))
+					sig := "no-answer"
+					if n.d.CommitSent() || n.d.PreCommitSent() {
+						// the transaction set was completed from the pool by a later processMissingTx (sendRecoveryRequest) and
+						// the node went on to (pre-)commit on the others' preparations without ever responding (D21)
+						sig = "no-answer/committed-without-response"
+					}
+					m.nhit(n, "C12", sig, fmt.Sprintf("node %d got every requested transaction of the proposal of (%d,%d) and neither responded nor asked for a view change", n.id, t.heightBefore, t.wantedView))
 				}
 			}
 		}
